@@ -107,7 +107,8 @@ fn build_unit(rng: &mut Rng, enc: Encoding, dwarf: &mut Dwarf, earlier: &mut Vec
     unit.get_mut(base).set(c::DW_AT_byte_size, AttributeValue::Data1(*rng.pick(&[1, 2, 4, 8])));
     unit.get_mut(base).set(c::DW_AT_encoding, AttributeValue::Encoding(c::DW_ATE_signed));
     let mut ids = vec![root, base];
-    let n = rng.usize(10);
+    let bushy = BUSHY.with(|b| b.get());
+    let n = if bushy { 6 + rng.usize(30) } else { rng.usize(10) };
     for _ in 0..n {
         let parent = *rng.pick(&ids);
         let parent = if parent == base { root } else { parent };
@@ -123,7 +124,7 @@ fn build_unit(rng: &mut Rng, enc: Encoding, dwarf: &mut Dwarf, earlier: &mut Vec
         ]);
         let id = unit.add(parent, tag);
         ids.push(id);
-        if rng.chance(1, 3) {
+        if rng.chance(1, if bushy { 2 } else { 3 }) {
             unit.get_mut(id).set_sibling(true);
         }
         for _ in 0..rng.usize(5) {
@@ -194,6 +195,19 @@ fn build_unit(rng: &mut Rng, enc: Encoding, dwarf: &mut Dwarf, earlier: &mut Vec
     }
     let uid = dwarf.units.add(unit);
     earlier.push((uid, ids));
+}
+
+thread_local! {
+    /// Larger, deeper trees with more DW_AT_sibling attributes (tree-walking workloads).
+    pub static BUSHY: std::cell::Cell<bool> = std::cell::Cell::new(false);
+}
+
+/// `dwarf_sections` with bushier trees.
+pub fn dwarf_sections_bushy(rng: &mut Rng, be: bool, addr_size: u8) -> Option<BTreeMap<String, Vec<u8>>> {
+    BUSHY.with(|b| b.set(true));
+    let r = dwarf_sections(rng, be, addr_size);
+    BUSHY.with(|b| b.set(false));
+    r
 }
 
 /// Build a small multi-unit DWARF and serialise it. Returns section name -> bytes
